@@ -20,6 +20,8 @@ mod c11;
 mod c14;
 mod c17;
 mod c18;
+mod c19;
+mod c19_gen;
 mod c17_flavours;
 mod c15;
 mod c16;
@@ -52,7 +54,7 @@ pub struct Prop {
 }
 
 fn props() -> Vec<Prop> {
-    vec![c01::PROP, c01::PROP2, c01::PROP3, c04::PROP, c05::PROP, c06::PROP, c06::PROP7, c06::PROP8, c06::PROP13, c09::PROP, c10::PROP, c11::PROP, c11::PROP12, c14::PROP, c17::PROP, c18::PROP, c15::PROP, c16::PROP]
+    vec![c01::PROP, c01::PROP2, c01::PROP3, c04::PROP, c05::PROP, c06::PROP, c06::PROP7, c06::PROP8, c06::PROP13, c09::PROP, c10::PROP, c11::PROP, c11::PROP12, c14::PROP, c17::PROP, c18::PROP, c19::PROP, c15::PROP, c16::PROP]
 }
 
 /// observation used when the implementation panicked
